@@ -249,6 +249,9 @@ func mkFunc(args, rets, slots int, tokens []instruction) func(v *VM) {
 		v.stack = append(v.stack, empty...)
 		topN := len(v.stack)
 		v.exec()
+		if len(v.stack)-topN < rets {
+			panic("missing return")
+		}
 		v.stack = append(v.stack[:v.frame.BaseN], v.stack[topN:]...)
 		for i := 0; i < rets; i++ {
 			v.stack[len(v.stack)-rets+i] = v.stack[len(v.stack)-rets+i].assign(Type(tokens[args+i].A))
